@@ -17,7 +17,7 @@ COQ_CASE_TYPE = "anycase"
 COQ_RUN = "run_any"
 TABLE_CONSTRUCTS = ["mask_single_place", "mask_single_remove", "mask_multi_place", "mask_multi_remove",
                     # code-level T1 (harness/tables/legacy_space_code.py; gen_out_of_bounds comes from legacy_nbhd_code.py)
-                    "grid_out_of_bounds_code", "grid_torus_adj_code", "grid_distance_squared_code", "grid_is_cell_empty_code",
+                    "grid_out_of_bounds_code", "grid_torus_adj_code", "hexgrid_torus_adj_2d_code", "grid_distance_squared_code", "grid_is_cell_empty_code",
                     "grid_move_to_empty_branch_code", "grid_move_to_empty_skeleton", "grid_closest_code",
                     "grid_move_one_of_skeleton", "grid_swap_pos_skeleton",
                     "body_single_place_code", "body_single_remove_code", "body_multi_place_code", "body_multi_remove_code",
@@ -58,7 +58,7 @@ ASSUMPTIONS = [
 CLASSES = ["SingleGrid", "MultiGrid", "HexSingleGrid", "HexMultiGrid"]
 E_OOB, E_CELL, E_NOEMPTY, E_NOTON, E_BADSEL, E_NOPOS, E_KEY, E_INDEX = 1, 2, 3, 4, 5, 6, 8, 9
 MUTATORS = ("place", "remove", "move", "swap", "move_to_empty", "move_one_of")
-FORM_KINDS = ("col", "ilist", "slice_y", "slice_x", "slice_xy", "cell_list")
+FORM_KINDS = ("col", "ilist", "slice_y", "slice_x", "slice_xy", "cell_list", "adj", "adj2d")
 SITE = {"place": "place_agent", "remove": "remove_agent", "move": "move_agent", "swap": "swap_pos",
         "move_to_empty": "move_to_empty", "move_one_of": "move_agent_to_one_of"}
 
@@ -146,7 +146,7 @@ def _gen_history(rng, cls, w, h, torus, n, length, mode, nlayers=0):
             ops.append(["move_one_of", a, cells, sel, he])
         else:
             kinds = ["mask", "is_empty", "index", "index", "iter", "coord_iter", "agents",
-                     "col", "ilist", "slice_y", "slice_x", "slice_xy", "cell_list", "cell_list"]
+                     "col", "ilist", "slice_y", "slice_x", "slice_xy", "cell_list", "cell_list", "adj", "adj2d"]
             if mode != "nobuild":
                 kinds += ["empties", "empties", "exists"]
             if nlayers:
@@ -155,7 +155,10 @@ def _gen_history(rng, cls, w, h, torus, n, length, mode, nlayers=0):
 
             def bound(nn):
                 return rng.choice([None, None, rng.randint(-nn - 2, nn + 2)])
-            if kd == "col":
+            if kd in ("adj", "adj2d"):
+                t2 = _rand_target(rng, w, h, posn, 0)
+                ops.append([kd, t2[0], t2[1]])
+            elif kd == "col":
                 ops.append([kd, rng.randint(-w - 1, w)])
             elif kd == "ilist":
                 ops.append([kd, [_rand_target(rng, w, h, posn, 0) for _ in range(rng.randint(1, 4))]])
@@ -222,6 +225,14 @@ def _fixed_cases():
                 ["move_one_of", 1, [[-11, 3], [3, 9], [1, 2]], "closest", None],
                 ["move_one_of", 2, [[2, 3], [2, 1], [3, 2], [1, 2]], "closest", None],
                 ["move_one_of", 2, [[0, -1], [5, 5]], "random", "error"]]))
+        # swap_pos corner cases (same cell on the Multi grids, same agent, one / both unplaced, then a real swap),
+        # exists_empty_cells before / after the grid fills up, coord_iter, torus_adj / torus_adj_2d
+        for torus in (False, True):
+            out.append(_mk(cls, 2, 1, torus, 0, 3, [
+                ["exists"], ["swap", 1, 2], ["place", 1, 0, 0], ["swap", 1, 2], ["swap", 2, 1], ["swap", 1, 1], ["place", 2, 0, 0],
+                ["swap", 1, 2], ["coord_iter"], ["place", 2, 1, 0], ["exists"], ["swap", 1, 2], ["coord_iter"], ["swap", 3, 3],
+                ["adj", 0, 0], ["adj", 2, 0], ["adj", -1, -1], ["adj", 5, 7], ["adj2d", 0, 0], ["adj2d", 2, 0], ["adj2d", -1, -1], ["adj2d", 5, 7],
+                ["remove", 1], ["exists"], ["swap", 1, 2], ["agents"]]))
         # every indexing form, on a bounded and on a toroidal grid, with two layers written in between
         for torus in (False, True):
             out.append(_mk(cls, 3, 2, torus, 2, 3, [
@@ -328,24 +339,34 @@ class _RecRandom(_random.Random):
         return v
 
 
-def _kind_of(e):
-    m = str(e)
-    if "out of bounds" in m:
-        return E_OOB
-    if "Cell not empty" in m:
-        return E_CELL
-    if "No empty cells" in m:
-        return E_NOEMPTY
-    if "not on the grid" in m:
-        return E_NOTON
-    if isinstance(e, ValueError) and "Invalid selection" in m:
-        return E_BADSEL
-    if isinstance(e, ValueError) and "No positions given" in m:
-        return E_NOPOS
+def _kind_of(e, op=None, w=0, h=0, torus=True, chosen=None):
+    """the kind of a rejection, from the exception TYPE and the call it came from - never from the message text
+    (rewording a message must not change an observation)"""
     if isinstance(e, IndexError):
         return E_INDEX
     if isinstance(e, KeyError):
         return E_KEY
+    k = op[0] if op else None
+
+    def oob(c):
+        return c is not None and not torus and not (0 <= c[0] < w and 0 <= c[1] < h)
+    if type(e) is ValueError and k == "move_one_of":
+        return E_BADSEL if op[2] else E_NOPOS
+    if type(e) is Exception:
+        if k == "swap":
+            return E_NOTON
+        if k == "move_to_empty":
+            return E_NOEMPTY
+        if k == "place":
+            return E_CELL
+        if k == "move":
+            return E_OOB if oob((op[2], op[3])) else E_CELL
+        if k == "move_one_of":
+            return 99 if chosen is None else E_OOB if oob(chosen) else E_CELL
+        targets = {"index": lambda: [(op[1], op[2])], "adj": lambda: [(op[1], op[2])], "ilist": lambda: [tuple(c) for c in op[1]],
+                   "slice_y": lambda: [(op[1], 0)], "slice_x": lambda: [(0, op[3])]}.get(k)
+        if targets and any(oob(c) for c in targets()):
+            return E_OOB
     return 99
 
 
@@ -676,6 +697,12 @@ def run_impl(case):
                 elif kind == "agents":
                     ids = [a._verif_id for a in g.agents]
                     res = [1 if len(set(ids)) != len(ids) else 0] + sorted(ids)
+                elif kind == "adj":
+                    q = g.torus_adj((op[1], op[2]))
+                    res = [int(q[0]), int(q[1])]
+                elif kind == "adj2d":
+                    q = space._HexGrid.torus_adj_2d(g, (op[1], op[2]))     # defined on the hex classes; uses width / height only
+                    res = [int(q[0]), int(q[1])]
                 elif kind == "col":
                     res = [v for content in g[op[1]] for v in _obs_cell(_ids(content))]
                 elif kind == "ilist":
@@ -707,7 +734,7 @@ def run_impl(case):
         except Exception as e:  # noqa: BLE001
             exc = e
         after = snapshot()
-        ekind = _kind_of(exc) if exc is not None else None
+        ekind = _kind_of(exc, op, w, h, torus, rec.last_choice) if exc is not None else None
         if kind == "move_one_of" and exc is None and not op[2]:
             res = [warned]
         obs.append(([0] + res if exc is None else [-1, ekind]) + [-8] + obs_state(after) + [-9] + layers_now())
@@ -889,7 +916,7 @@ def run_impl(case):
             if kind in ("lset", "lfill", "lget") and canon(after) != canon(before):
                 fail(f"C08/{name}/layers/grid-changed-by-layer-call", i, f"{op} changed the grid state: pos {before['pos']} -> {after['pos']}")
         # the indexing forms against the raw cell contents
-        if kind in ("col", "ilist", "slice_y", "slice_x", "slice_xy", "cell_list"):
+        if kind in FORM_KINDS:
             def wrap(c):
                 if 0 <= c[0] < w and 0 <= c[1] < h:
                     return c
@@ -899,6 +926,12 @@ def run_impl(case):
                 want_exc = None if -w <= op[1] < w else E_INDEX
                 if want_exc is None:
                     want = [(op[1] % w, y) for y in range(h)]
+            elif kind in ("adj", "adj2d"):
+                wq = wrap((op[1], op[2])) if kind == "adj" else (op[1] % w, op[2] % h)
+                want_exc = E_OOB if wq is None else None
+                if exc is None and wq is not None and tuple(res) != tuple(wq):
+                    fail(f"C08/{name}/{'torus_adj' if kind == 'adj' else 'torus_adj_2d'}/wrong-coordinate", i,
+                         f"{'torus_adj' if kind == 'adj' else 'torus_adj_2d'}({(op[1], op[2])}) = {tuple(res)}, required {wq}")
             elif kind == "ilist":
                 ws = [wrap(tuple(c)) for c in op[1]]
                 want_exc = E_OOB if None in ws else None
@@ -913,7 +946,7 @@ def run_impl(case):
                 want = None if want_exc else [(x, y0[1]) for x in range(w)[slice(op[1], op[2])]]
             elif kind == "slice_xy":
                 want = [(x, y) for x in range(w)[slice(op[1], op[2])] for y in range(h)[slice(op[3], op[4])]]
-            form = {"col": "grid[x]", "ilist": "grid[(x1, y1), ...]", "slice_y": "grid[x, a:b]", "slice_x": "grid[a:b, y]",
+            form = {"adj": "torus_adj", "adj2d": "torus_adj_2d", "col": "grid[x]", "ilist": "grid[(x1, y1), ...]", "slice_y": "grid[x, a:b]", "slice_x": "grid[a:b, y]",
                     "slice_xy": "grid[a:b, c:d]", "cell_list": f"{op[3] if kind == 'cell_list' else ''}_cell_list_contents"}[kind]
             if kind == "cell_list":
                 exp = sorted(x for c in op[1] for x in raw_after[tuple(c)])
@@ -926,7 +959,7 @@ def run_impl(case):
                 expect_reject = {want_exc}
                 if exc is None:
                     fail(f"C08/{name}/getitem/out-of-range-accepted", i, f"{form} with {op[1:]} was not rejected")
-            elif exc is None:
+            elif exc is None and kind not in ("adj", "adj2d"):
                 exp = [v for c in want for v in _obs_cell(raw_after[c])]
                 if res != exp:
                     fail(f"C08/{name}/getitem/wrong-contents", i, f"{form} with {op[1:]} shows {res}, the cells {want} hold {[raw_after[c] for c in want]}")
@@ -1034,6 +1067,10 @@ def _coq_op(op):
                 f"{_HE.get(op[4], 'HNone')} {L.zpair(out)}")
     def oz(v):
         return "None" if v is None else f"(Some {L.z(v)})"
+    if k == "adj":
+        return f"ReadForm (FAdj {L.zpair((op[1], op[2]))})"
+    if k == "adj2d":
+        return f"ReadForm (FAdj2d {L.zpair((op[1], op[2]))})"
     if k == "col":
         return f"ReadForm (FCol {L.z(op[1])})"
     if k == "ilist":
